@@ -1,8 +1,9 @@
 (* Properties/C13.v — JSON save/load round trip preserves structure and parameters
    (deeprob/spn/structure/io.py).  Model: Model/Json.v (generic), Model/JsonRun.v (Qc instance). *)
-From Coq Require Import List Arith ZArith QArith Qabs Qcanon Bool.
-From DV Require Import Model.Json Model.JsonRun Proofs.JsonFacts Proofs.Round8Facts.
+From Coq Require Import List Arith ZArith QArith Qabs Qcanon Bool Reals.
+From DV Require Import Model.Json Model.JsonRun Proofs.JsonFacts Proofs.Round8Facts Proofs.CltGuardReal.
 Import ListNotations.
+Close Scope R_scope.
 
 Section C13_generic.
   Variable T : Type.
@@ -70,6 +71,14 @@ Proof.
   split; [exact bernoulli_guard_after_rounding| exact gaussian_guard_after_rounding].
 Qed.
 
+(* the BinaryCLT guard np.allclose(exp(params).sum(axis=2), 1) over the reals: a table row p_1..p_k > 0 summing to
+   one, saved as ln p_j + delta_j with |delta_j| <= d <= 1e-6 (8-decimal rounding: 5e-9), is still accepted.  What
+   keeps C13_guards_pass `_partial` is only the float summation inside np.sum / np.exp. *)
+Theorem C13_clt_guard_after_rounding : forall (d : R) (ps ds : list R), (0 <= d <= 1 / 1000000)%R -> length ps = length ds ->
+  Forall (fun p => (0 < p)%R) ps -> CltGuardReal.rsum ps = 1%R -> Forall (fun e => (Rabs e <= d)%R) ds ->
+  allclose1 (CltGuardReal.rsum (saved_row ps ds)).
+Proof. exact clt_guard_after_rounding. Qed.
+
 (* the bound 2000 cannot be dropped: 7000 equal weights (exact sum 1) are rejected after rounding
    (recorded finding many-entries-isclose) *)
 Theorem C13_many_entries_refuted :
@@ -98,3 +107,4 @@ Print Assumptions C13_guards_pass_partial.
 Print Assumptions C13_many_entries_refuted.
 Print Assumptions C13_multi_edge_refuted.
 Print Assumptions C13_gauss_min_sigma_pinned_refuted.
+Print Assumptions C13_clt_guard_after_rounding.
